@@ -31,6 +31,7 @@ ActionSet ==
   \cup {[act |-> "SignAttributes", a |-> a, p |-> p, attrs |-> at] : a \in Auditors, p \in Providers, at \in AttrChoices \ {<<>>}}
   \cup {[act |-> "DeleteAttributes", a |-> a, p |-> p, keys |-> ks] : a \in Auditors, p \in Providers, ks \in KeyChoices}
   \cup {[act |-> "NextBlock", gap |-> g] : g \in Gaps}
+  \cup {[act |-> "SendToEscrow", t |-> t, amount |-> 1] : t \in Tenants}
 
 \* J2: the action alphabet the harness tries at every selected state
 AlphabetJson == ToJson(SetToSeq(ActionSet))
